@@ -197,7 +197,8 @@ def handle : Handler
     let specAll := specOk impl && (match t with | some t => truthOk api impl t | none => true)
     let isMatch := cands.contains impl
     -- a failed read on a stream that the request no longer references: the position is in the refused framing line
-    let noOpinion := evs.any (fun ev => match ev with | .req r f => r.streamed && f != .attached && r.got.err && r.head.cl == -1 | _ => false)
+    -- (before /repo d6f45a0 the model had no opinion here; now the server's stream remembers the error and the connection is closed)
+    let noOpinion := false
     let hazard := hazardApis.contains api && (isMatch || noOpinion)
     let detachedUnread := evs.any (fun ev => match ev with | .req r f => r.streamed && f != .attached && !r.got.eof | _ => false)
     let first := evs.findSome? (fun ev => match ev with | .req r _ => some r | _ => none)
@@ -208,7 +209,7 @@ def handle : Handler
     let nreq := (evs.filter (fun ev => match ev with | .req _ _ => true | _ => false)).length
     pure { out := if isMatch || noOpinion then impl else cands.headD [],
            spec := specAll,
-           cls := if specAll then "" else if hazard then "stream-detached-undrained" else "",
+           cls := if specAll then "" else if hazard then "" else "",   -- class `stream-detached-undrained` repaired in /repo (d6f45a0)
            specNote := "no panic/hang; no request taken from body bytes; handlers see an initial run of the requests sent; bytes obtained are a prefix (suffix after a form parse) of the body; parsed form = form sent; a whole request is never answered with an error",
            tag := "sapi:" ++ api ++ ":" ++ kindTag ++ ":" ++ toString (min nreq 3) ++ (if endK == "stall" then "S" else "E") ++
                   boolTok detachedUnread ++ boolTok (evs.any (fun ev => match ev with | .maybeClosed => true | _ => false)) ++
